@@ -5,6 +5,7 @@
       idna <host> <ascii> <ok>         oracle row: idna::domain_to_ascii of a hostname on which it is not the identity
       add|del <pos> <host> <kind> <pathval> <hasm> <m> <hasc> <c> <redirect|-1> <auth|-1>
       probe <host> <path> <method>
+      hashost <host>                    Router::has_hostname (idna row of the host applied to the tree part)
       permcheck                         (implementation-only oracle; no observation)
       tins <key> <n> | trem <key> | tget <key> <aw> | tmut <key> <aw>     (the trie API itself)
     obs: ok | err <Name> | panic | skipped | route <hasc> <c> <redirect> <auth> | notfound *)
@@ -153,6 +154,14 @@ Definition step (st : rstate) (op : list tok) : rstate * list tok :=
          | Some (k', v) => [TS "some"; TB k'; TN v]
          | None => [TS "none"]
          end)
+      | _ => bad
+      end
+    else if name =? "hashost" then
+      match args with
+      | [TB h] =>
+        let a := match aget h (r_idna st) with
+                 | None => Some h | Some (a, true) => Some a | Some (_, false) => None end in
+        (st, [tn_bool (has_hostname_at (tab_match (r_tab st)) (r_rt st) h a)])
       | _ => bad
       end
     else if name =? "probe" then
